@@ -463,8 +463,8 @@ func ruleR06R07(c *Ctx) {
 		})
 	}
 	c.r.note("R06: %d casts, %d literals/pool assertions, %d precondition call sites; R07: %d kind switches; preconditions: %d", nCast, nLit, nCalls, nSwitch, len(requires))
-	c.r.floor("R06", 120, "casts, literals, call sites", "C11")
-	c.r.floor("R07", 14, "kind switches", "C01")
+	c.r.floor("R06", 60, "casts, literals, call sites", "C11")
+	c.r.floor("R07", 8, "kind switches", "C01")
 }
 
 // leafByElimination: every inner kind is excluded by facts.
